@@ -85,6 +85,8 @@ pub fn items(tier: Tier) -> Vec<Item> {
     for d in ["EnumIter", "FromRepr", "EnumTable"] {
         add("lifetime", d, format!("{} on enum with lifetime", d), en(d, "", "<'a>", &["A(&'a str)".to_string(), "B".to_string()]), false);
         add("lifetime", d, format!("{} on enum with lifetime and type parameter", d), en(d, "", "<'a, T: Default>", &["A(&'a str, T)".to_string(), "B".to_string()]), false);
+        add("lifetime", d, format!("{} on enum whose lifetime is only used by a disabled variant", d), en(d, "", "<'a>", &["A".to_string(), "#[strum(disabled)] B(&'a str)".to_string(), "C".to_string()]), false);
+        add("lifetime", d, format!("{} on enum with a lifetime held in PhantomData of a unit-like tuple variant", d), en(d, "", "<'a>", &["A".to_string(), "#[strum(disabled)] _M(::core::marker::PhantomData<&'a ()>)".to_string()]), false);
         add("lifetime", d, format!("{} on enum with two lifetimes", d), en(d, "", "<'a, 'b>", &["A(&'a str)".to_string(), "B(&'b str)".to_string()]), false);
     }
     // R4 repeated single-use attribute — variant level
